@@ -27,6 +27,12 @@ C11LKeys == {LK(VX, 1), LK(VX, 2)}
 C11SKeys1 == {SK(VX, NoName, FALSE, 1)}
 C11LKeys1 == {LK(VX, 1)}
 
+\* a larger alphabet for simulation only: two executor names sharing the base executor's local prefix,
+\* a friend-approved foreign key
+C11ExecsL == {VX, VXsub}
+C11SKeysL == {SK(VX, NoName, FALSE, 1), SK(VX, NoName, FALSE, 2), SK(VXsub, NoName, FALSE, 1), SK(VZ, NoName, TRUE, 1)}
+C11LKeysL == {LK(VX, 1), LK(VX, 2), LK(VXsub, 1)}
+
 \* ---- C12: the key classes of the rule ----
 C12Execs == {VX, VXsub, VXpara, VXother, VN}
 Areas == {NoName, VX, VXsub, VXpara, VZ}
@@ -40,6 +46,8 @@ C12LKeysS == {LK(VX, 1), LK(VZ, 1), BadLK(VX, 1)}
 C12ExecsS == {VX, VXsub, VZ}
 
 \* ---- C13 ----
+\* script transactions and transactions of a foreign para chain (executed by the none driver)
+C13Execs == {VX, VXother}
 C13Conds == {[proc |-> p, gmp |-> n] : p \in {"long", "fresh"}, n \in {1, 2, 16}}
 C13Acts == {"gc", "query", "side", "checktx"}
 C13CondsS == {[proc |-> "long", gmp |-> 1], [proc |-> "fresh", gmp |-> 16]}
